@@ -40,6 +40,7 @@ template<class V> static void run(const VpCase* c, VpOutcome* o) {
     uint64_t al[VP_MAXL], bl[VP_MAXL], got[VP_MAXL], exp[VP_MAXL];
     for (unsigned i = 0; i < W; ++i) { al[i] = c->v[0][i] & F::mask(); bl[i] = c->v[1][i] & F::mask(); }
     poison_below(al[0] ^ f);
+    M produced{}; bool have_mask = false;
     if (!scalar) {
         V a = mk<V>(al), b = mk<V>(bl); M m{}; IV ir{};
         switch (f) {
@@ -49,7 +50,7 @@ template<class V> static void run(const VpCase* c, VpOutcome* o) {
         case F_ISGREATER: m = avel::isgreater(a, b); break; case F_ISGREATEREQUAL: m = avel::isgreaterequal(a, b); break; case F_ISLESS: m = avel::isless(a, b); break;
         case F_ISLESSEQUAL: m = avel::islessequal(a, b); break; case F_ISLESSGREATER: m = avel::islessgreater(a, b); break; default: m = avel::isunordered(a, b); break;
         }
-        if (f == F_FPCLASSIFY) rd<IV>(ir, got); else rdmask<M>(m, got);
+        if (f == F_FPCLASSIFY) rd<IV>(ir, got); else { rdmask<M>(m, got); produced = m; have_mask = true; }
     } else {
         T x = elem<T>::from_bits(al[0]), y = elem<T>::from_bits(bl[0]); bool r = false; IT ci = 0;
         switch (f) {
@@ -95,7 +96,9 @@ template<class V> static void run(const VpCase* c, VpOutcome* o) {
     }
     if (nt) o->nontrivial = 1; else o->classes |= 1u << CL_ORDINARY;
     char tag[96]; std::snprintf(tag, sizeof tag, "value:%s_input", first_class);
-    cmp_lanes(o, W, exp, got, nullptr, tag, OPS[c->op].name);
+    if (!cmp_lanes(o, W, exp, got, nullptr, tag, OPS[c->op].name)) return;
+    // the mask the function returned, handed to keep / clear / blend: whole lanes must move
+    if (have_mask) mask_consumers_ok<V>(produced, exp, o, OPS[c->op].name);
 }
 
 extern "C" void vp_run(const VpCase* c, VpOutcome* o) {
